@@ -240,10 +240,36 @@ func ruleModeTable(c *Ctx) {
 	bptDirName := constStringOf(c.P, "bptDir")
 	var dataAtom, bptAtom ssa.Value
 	strEqEdges := func(s string) []succEdge {
-		return eqEdges(check, true, func(x, y ssa.Value) bool {
+		es := eqEdges(check, true, func(x, y ssa.Value) bool {
 			cs, ok := constString(y)
 			return ok && cs == s
 		})
+		// the comparison may sit in a one-line predicate: if isDataFileName(name) { ... }
+		es = append(es, boolEdges(check, true, func(x ssa.Value) bool {
+			call, ok := resolve1(x).(*ssa.Call)
+			if !ok {
+				return false
+			}
+			h := call.Call.StaticCallee()
+			if h == nil || !c.P.inModule(h) || h.Blocks == nil {
+				return false
+			}
+			rets := returnsOf(h)
+			if len(rets) != 1 || len(rets[0].Results) != 1 {
+				return false
+			}
+			b, ok := resolve1(rets[0].Results[0]).(*ssa.BinOp)
+			if !ok || b.Op != token.EQL {
+				return false
+			}
+			for _, side := range []ssa.Value{b.X, b.Y} {
+				if cs, ok := constString(side); ok && cs == s {
+					return true
+				}
+			}
+			return false
+		})...)
+		return es
 	}
 	dataEdges, bptEdges := strEqEdges(dataSuffix), strEqEdges(bptDirName)
 	atomOK := map[string]bool{}
